@@ -809,19 +809,21 @@ def create_first(ctx: Ctx) -> None:
         return
     out = outs[0]
     fan = [c for c in edges if ast.dump(c.args[0]) == ast.dump(out) and cfg.nodes[cfg.node_of(c)].loops]
-    ctx.ob(f, fan[0] if fan else f.node, len(fan) == 1, "edges from the create-arrays output node are added in a loop over the collected operations", sel="create:fan-out")
-    for c in fan:
-        nid = cfg.node_of(c)
-        loop = cfg.nodes[cfg.nodes[nid].loops[-1]]
-        it = loop.stmt.iter
-        ok = isinstance(it, ast.Name) and isinstance(c.args[1], ast.Name) and isinstance(loop.stmt.target, ast.Name) and c.args[1].id == loop.stmt.target.id
-        inner_conds = [b for _, _, b in cfg.branch_conditions(nid) if cfg.in_loop(b, loop.id)]
-        ctx.ob(f, c, ok and not inner_conds, "the barrier edge is added for every collected operation (plain loop over the collection, no filter)" + ("" if ok else f" — iterates `{unparse(it, 40)}`"), sel="create:all-nodes")
-        if not isinstance(it, ast.Name):
-            continue
-        # the collection receives every node that has a primitive op
-        apps = [a for a in f.own_nodes() if isinstance(a, ast.Call) and isinstance(a.func, ast.Attribute) and a.func.attr == "append" and isinstance(a.func.value, ast.Name) and a.func.value.id == it.id]
-        ctx.ob(f, apps[0] if apps else f.node, len(apps) >= 1, "operations are collected into the list the barrier loop iterates", sel="create:collected")
+    # the same fan-out written as one call: dag.add_edges_from((OUT, n) for n in <collection>)
+    bulk = []
+    for c in f.own_nodes():
+        if isinstance(c, ast.Call) and isinstance(c.func, ast.Attribute) and c.func.attr == "add_edges_from" and c.args and isinstance(c.args[0], (ast.GeneratorExp, ast.ListComp)):
+            g = c.args[0]
+            if isinstance(g.elt, ast.Tuple) and len(g.elt.elts) == 2 and ast.dump(g.elt.elts[0]) == ast.dump(out) and len(g.generators) == 1:
+                bulk.append(c)
+    ctx.ob(f, (fan or bulk or [f.node])[0], len(fan) + len(bulk) == 1, "edges from the create-arrays output node are added in a loop over the collected operations", sel="create:fan-out")
+
+    def collected_ok(coll: ast.Name, at: int):
+        """the collection holds every node that has a primitive op: built by appends under
+        only that test, or by a comprehension over dag.nodes with only that filter"""
+        apps = [a for a in f.own_nodes() if isinstance(a, ast.Call) and isinstance(a.func, ast.Attribute) and a.func.attr == "append" and isinstance(a.func.value, ast.Name) and a.func.value.id == coll.id]
+        comps = [d_.value for d_ in fl.rdefs(coll.id, at) if isinstance(d_.value, (ast.ListComp, ast.DictComp, ast.SetComp))]
+        ctx.ob(f, (apps or comps or [f.node])[0], bool(apps) or bool(comps), "operations are collected into the list the barrier loop iterates", sel="create:collected")
         for a in apps:
             an = cfg.node_of(a)
             extra = []
@@ -832,6 +834,35 @@ def create_first(ctx: Ctx) -> None:
             lp = cfg.nodes[an].loops
             over_nodes = bool(lp) and "nodes" in unparse(cfg.nodes[lp[0]].stmt.iter)
             ctx.ob(f, a, not extra and over_nodes, "every node with a primitive_op/pipeline is collected" + ("" if not extra else f" — extra filter {extra}"), sel="create:predicate")
+        for cm in comps:
+            gen = cm.generators[0]
+            extra = []
+            for cond in gen.ifs:
+                for part in (cond.values if isinstance(cond, ast.BoolOp) and isinstance(cond.op, ast.And) else [cond]):
+                    if isinstance(part, ast.Compare) and isinstance(part.left, ast.Constant) and part.left.value in ("primitive_op", "pipeline") and isinstance(part.ops[0], ast.In):
+                        continue
+                    extra.append(unparse(part))
+            over_nodes = len(cm.generators) == 1 and "nodes" in unparse(gen.iter)
+            ctx.ob(f, cm, not extra and over_nodes and bool(gen.ifs), "every node with a primitive_op/pipeline is collected" + ("" if not extra else f" — extra filter {extra}"), sel="create:predicate")
+
+    for c in bulk:
+        g = c.args[0]
+        gen = g.generators[0]
+        ok = isinstance(gen.iter, ast.Name) and isinstance(gen.target, ast.Name) and isinstance(g.elt.elts[1], ast.Name) and g.elt.elts[1].id == gen.target.id and not gen.ifs
+        ctx.ob(f, c, ok, "the barrier edge is added for every collected operation (plain loop over the collection, no filter)" + ("" if ok else f" — iterates `{unparse(gen.iter, 40)}`"), sel="create:all-nodes")
+        if isinstance(gen.iter, ast.Name):
+            collected_ok(gen.iter, cfg.node_of(c))
+    for c in fan:
+        nid = cfg.node_of(c)
+        loop = cfg.nodes[cfg.nodes[nid].loops[-1]]
+        it = loop.stmt.iter
+        ok = isinstance(it, ast.Name) and isinstance(c.args[1], ast.Name) and isinstance(loop.stmt.target, ast.Name) and c.args[1].id == loop.stmt.target.id
+        inner_conds = [b for _, _, b in cfg.branch_conditions(nid) if cfg.in_loop(b, loop.id)]
+        ctx.ob(f, c, ok and not inner_conds, "the barrier edge is added for every collected operation (plain loop over the collection, no filter)" + ("" if ok else f" — iterates `{unparse(it, 40)}`"), sel="create:all-nodes")
+        if not isinstance(it, ast.Name):
+            continue
+        # the collection receives every node that has a primitive op
+        collected_ok(it, nid)
 
 
 @rule("NODEKEYS-1", props=["C07", "C02", "C09"], floor=4)
